@@ -157,6 +157,15 @@ class KeyProcessor:
         while True:
             flush = False
 
+            if retry and get_app().is_done:
+                # A handler has set the application result: the keys that are
+                # left in the buffer are type-ahead for the next application,
+                # not commands for this one.
+                retry = False
+                self.input_queue.extendleft(reversed(buffer))
+                del buffer[:]
+                continue
+
             if retry:
                 retry = False
             else:
